@@ -26,6 +26,32 @@ thread_local! {
     static ALIASES: Cell<bool> = const { Cell::new(false) };
 }
 
+/// the generator's own mutator dispatch (the first registered mutator that fires wins) on a
+/// caller-supplied entropy source, so that it can be compared with a model call by call.
+pub fn dispatch_int(gen: &Generator, value: i32, source: &mut super::GenerationSource) -> i32 {
+    gen.mutate_int(value, source)
+}
+
+/// see [`dispatch_int`].
+pub fn dispatch_float(gen: &Generator, value: f64, source: &mut super::GenerationSource) -> f64 {
+    gen.mutate_float(value, source)
+}
+
+/// see [`dispatch_int`].
+pub fn dispatch_string(gen: &Generator, value: String, source: &mut super::GenerationSource) -> String {
+    gen.mutate_string(value, source)
+}
+
+/// see [`dispatch_int`].
+pub fn dispatch_bytes(gen: &Generator, value: Vec<u8>, source: &mut super::GenerationSource) -> Vec<u8> {
+    gen.mutate_bytes(value, source)
+}
+
+/// see [`dispatch_int`].
+pub fn dispatch_memo_index(gen: &Generator, index: usize, source: &mut super::GenerationSource) -> usize {
+    gen.mutate_memo_index(index, source)
+}
+
 /// start recording on this thread (drops any earlier trace).
 pub fn start() {
     TRACE.with(|t| *t.borrow_mut() = Some(Vec::new()));
